@@ -37,11 +37,21 @@ def profile(h=0):
     p = Profile(update=0, update_all=0, remove=40, remove_all=3, drop_measurement=8, insert=30, insert_multiple=6, reindex=6, reopen=4)
     p.getter_probes = True
     p.n_random_probes = 3
+    if h % 4 == 2:  # keys that look like the CSV prefixes, contain blanks or dots
+        p.extra_tag_keys = ["a b", "_tag_q", "t_q", "f_q"]
+        p.extra_field_keys = ["f_q", "x.y", "_field_q", "t_q"]
     if h % 8 == 5:
         p.max_rows = 45
         p.max_time_probes = 30
         p.min_ops, p.max_ops = 4, 10
     return p
+
+
+def _cfg_variant(cfg, h):
+    """Every third CSV history runs with flush_on_insert=False (reads go through the same buffered handle)."""
+    if cfg["storage"] == "csv" and h % 3 == 0:
+        return dict(cfg, flush=False)
+    return cfg
 
 
 def run(res, tier, seed, shard, nshards):
@@ -57,7 +67,7 @@ def run(res, tier, seed, shard, nshards):
         for ci, cfg in enumerate(CONFIGS):
             for h in range(N_HIST[tier]):
                 rng = rng_for("C02", tier, seed, shard, ci, h)
-                s = NoMatchRunner(res, cfg, scratch, rng, profile(h), judge).run()
+                s = NoMatchRunner(res, _cfg_variant(cfg, h), scratch, rng, profile(h), judge).run()
                 if h == 0 and shard == 0 and ci in (1, 2):
                     res.sample({"config": cfg_name(cfg), "first_ops": s.log[:5]})
     for b in contracts.drain(res):
